@@ -177,6 +177,13 @@ def tref_profile(rng, layers: int, kind='random', centers=None) -> np.ndarray:
     return 210.0 + 80.0 * centers
   if kind == 'tropopause':
     return np.maximum(215.0, 288.0 * centers ** 0.19)
+  if kind == 'cooling':            # monotonically colder towards the surface (no warming step)
+    return 300.0 - 75.0 * centers
+  if kind == 'isothermal_top':     # the two uppermost layers equal, varying below
+    t = 215.0 + 70.0 * np.maximum(centers - centers[min(1, layers - 1)], 0.0) + 8.0 * rng.standard_normal(layers) * (np.arange(layers) > 1)
+    return t
+  if kind == 'plateau_cooling':    # a plateau on top, then monotonically colder
+    return 290.0 - 60.0 * np.maximum(centers - 0.4, 0.0)
   return 250.0 + 25.0 * rng.standard_normal(layers)
 
 
